@@ -22,6 +22,8 @@ use zipora::memory::{SecureMemoryPool, SecurePoolConfig};
 
 #[path = "c02_x.rs"]
 mod x;
+#[path = "c02_b.rs"]
+mod b;
 
 const HEADER: &str = r#"From ZV.Common Require Import Base Run.
 From ZV.C02 Require Import Model RunCase RunCaseX.
@@ -850,7 +852,7 @@ fn run_one(cx: &mut Ctx, c: &Value) {
             let ops: Vec<Vec<u64>> = c["ops"].as_array().map(|a| a.iter().map(|o| o.as_array().map(|v| v.iter().map(|x| x.as_u64().unwrap_or(0)).collect()).unwrap_or_default()).collect()).unwrap_or_default();
             x::pazip_sim_case(cx, c["period"].as_u64().unwrap_or(1) as usize, c["seed"].as_u64().unwrap_or(0), c["dict_big"].as_bool().unwrap_or(false), &ops, true)
         }
-        "simd_tie" => x::simd_tie_bytes(cx, &bytes_of(&c["data"]), true),
+        "simd_tie" => x::simd_tie_bytes_v(cx, c["variant"].as_u64().unwrap_or(0) as usize, &bytes_of(&c["data"]), true),
         "big" => x::big_case(cx, c["front"].as_u64().unwrap_or(0), c["sel"].as_u64().unwrap_or(0) as usize, c["kind"].as_u64().unwrap_or(0), c["n"].as_u64().unwrap_or(0) as usize),
         "realtime_batch" => x::realtime_batch_case(cx, c["mode"].as_u64().unwrap_or(0) as usize, c["fallback"].as_bool().unwrap_or(true), c["item_len"].as_u64().unwrap_or(0) as usize, c["n_big"].as_u64().unwrap_or(0) as usize, c["seed"].as_u64().unwrap_or(0)),
         "pazip/legacy_decode_raw" => legacy_raw(cx, &bytes_of(&c["data"])),
@@ -858,7 +860,7 @@ fn run_one(cx: &mut Ctx, c: &Value) {
             let ops: Vec<Vec<u64>> = c["ops"].as_array().map(|a| a.iter().map(|o| o.as_array().map(|v| v.iter().map(|x| x.as_u64().unwrap_or(0)).collect()).unwrap_or_default()).collect()).unwrap_or_default();
             legacy_records_case(cx, c["period"].as_u64().unwrap_or(1) as usize, c["seed"].as_u64().unwrap_or(0), &ops)
         }
-        _ => {}
+        _ => { b::run_one_b(cx, c); }
     }
 }
 
@@ -1144,6 +1146,8 @@ pub fn run(args: &Args) {
         simd_lz77_case(&mut cx, &x);
     }
     x::run_simd_ties(&mut cx, th);
+    // 7. oracle breadth: secondary entry points, non-default configurations, thresholds, mixed histories (c02_b.rs)
+    b::run_breadth(&mut cx, th);
     cx.sum.dist_max("coq_cases", cx.shards.len() as u64);
     let sh = cx.shards.write(&args.out);
     cx.sum.write(&args.out, sh);
